@@ -36,6 +36,8 @@ type limitCase struct {
 	Tree0   string  `json:"tree0"`
 	Tree    string  `json:"tree"`
 	Events  [][]any `json:"events"`
+	Multi   bool    `json:"multi"`
+	Srcs    [][]int `json:"srcs"`
 	Text    string  `json:"-"`
 	ErrText string  `json:"-"`
 }
@@ -56,6 +58,7 @@ func captureEvents(f func()) [][]any {
 
 // parseLimited runs one of the limited entry points. limit < 0 means the unlimited entry point.
 func parseLimited(grammar, entry, text string, limit int) (tree string, ok bool, errText string, crash string) {
+	defer guard(fmt.Sprintf("%s parse (%s) with token limit %d", grammar, entry, limit), text)()
 	defer func() {
 		if r := recover(); r != nil {
 			crash = fmt.Sprintf("panic: %v", r)
@@ -240,6 +243,11 @@ func checkC16(c *core.Ctx) {
 	cases := map[int]*limitCase{}
 	id := 0
 	var nontrivial int64
+	var validSchemaTexts []string
+	nmulti := 10
+	if c.Thorough() {
+		nmulti = 200
+	}
 	addDoc := func(grammar, text string) {
 		n, lexOK := countTokens(text)
 		tree0, ok0, _, crash := parseLimited(grammar, "", text, -1)
@@ -254,7 +262,7 @@ func checkC16(c *core.Ctx) {
 		}
 		for _, entry := range entries {
 			for limit := 0; limit <= n+2; limit++ {
-				lc := &limitCase{Grammar: grammar, Entry: entry, Limit: limit, N: n, HasSrc: true, Src: cps(text), OK0: ok0, Tree0: tree0, Text: text}
+				lc := &limitCase{Grammar: grammar, Entry: entry, Limit: limit, N: n, HasSrc: true, Src: cps(text), OK0: ok0, Tree0: tree0, Text: text, Srcs: [][]int{}}
 				var crash string
 				lc.Events = captureEvents(func() {
 					lc.Tree, lc.OK, lc.ErrText, crash = parseLimited(grammar, entry, text, limit)
@@ -298,6 +306,11 @@ func checkC16(c *core.Ctx) {
 			toks, _ = MutateTokens(toks, rng, pool)
 		}
 		text := RenderIgnored(toks, rng)
+		if grammar == "schema" && i%5 != 4 {
+			if _, err := parser.ParseSchema(&ast.Source{Input: text}); err == nil {
+				validSchemaTexts = append(validSchemaTexts, text)
+			}
+		}
 		addDoc(grammar, text)
 		if i < 2 {
 			c.Sample(map[string]any{"source": "generated document x every limit 0..tokens+2, hook events validated by TokenLimit_Trace", "grammar": grammar, "text": text})
@@ -309,6 +322,64 @@ func checkC16(c *core.Ctx) {
 	}
 	for _, t := range []string{"#c\ntype T{f:Int}", "type T{#c\nf:Int #d\n}", "\"\"\"d\"\"\" type T implements A&B @x{f(a:Int=1):[T!]!}", "extend schema @d #c\n"} {
 		addDoc("schema", t)
+	}
+	// several sources in one call: the limit is per source
+	multi := func(texts []string) {
+		var srcs []*ast.Source
+		var cp [][]int
+		maxN, sum := 0, 0
+		for i, t := range texts {
+			srcs = append(srcs, &ast.Source{Name: fmt.Sprintf("m%d.graphql", i), Input: t})
+			cp = append(cp, cps(t))
+			n, _ := countTokens(t)
+			sum += n
+			if n > maxN {
+				maxN = n
+			}
+		}
+		d0, err0 := parser.ParseSchemas(srcs...)
+		tree0 := ""
+		if err0 == nil {
+			tree0 = gtListString(ProjectSchemaDoc(d0))
+		}
+		for _, limit := range []int{0, 1, maxN - 1, maxN, maxN + 1, sum - 1, sum, sum + 1} {
+			if limit < 0 {
+				continue
+			}
+			lc := &limitCase{Grammar: "schema", Entry: "ParseSchemasWithLimit(several sources)", Limit: limit, N: maxN, OK0: err0 == nil, Tree0: tree0, Multi: true, Srcs: cp, Src: []int{}, Text: strings.Join(texts, " | ")}
+			crash := ""
+			lc.Events = captureEvents(func() {
+				defer func() {
+					if r := recover(); r != nil {
+						crash = fmt.Sprintf("panic: %v", r)
+					}
+				}()
+				d, err := parser.ParseSchemasWithLimit(limit, srcs...)
+				if err != nil {
+					lc.ErrText = err.Error()
+					return
+				}
+				lc.OK = true
+				lc.Tree = gtListString(ProjectSchemaDoc(d))
+			})
+			if crash != "" {
+				c.Violation(fmt.Sprintf("ParseSchemasWithLimit(%d, %d sources): %s", limit, len(srcs), crash), map[string]any{"texts": texts, "limit": limit, "crash": crash})
+				continue
+			}
+			id++
+			lc.ID = id
+			b, _ := json.Marshal(lc)
+			lines = append(lines, b)
+			events = append(events, int64(len(lc.Events)))
+			cases[id] = lc
+			nontrivial++
+		}
+	}
+	multi([]string{"type A { a: Int }", "type B { b: Int c: String }", "extend type A { d: Int }"})
+	multi([]string{"#c\ntype T{f:Int}", "scalar S", "type T2{#c\nf:Int #d\n}"})
+	multi([]string{"scalar S", "type T {"})
+	for i := 0; i+2 < len(validSchemaTexts) && i < 3*nmulti; i += 3 {
+		multi(validSchemaTexts[i : i+3])
 	}
 	cfg := "SPECIFICATION Spec\nCONSTANTS\n  Devs = " + core.DevSetTLA(devs) + "\nCHECK_DEADLOCK FALSE\n"
 	bad, ok := RunTrace(c, TraceJob{Module: "TokenLimit_Trace", CfgText: cfg, Lines: lines, Events: events, Shards: 14, Stack: "256m", Timeout: 15 * time.Minute})
@@ -366,6 +437,9 @@ func checkC16(c *core.Ctx) {
 				}
 				id++
 				lc.ID = id
+				if lc.Srcs == nil {
+					lc.Srcs = [][]int{}
+				}
 				b, _ := json.Marshal(lc)
 				blines = append(blines, b)
 				bevents = append(bevents, int64(len(lc.Events)))
